@@ -295,6 +295,7 @@ type effects struct {
 	pages       int    // held pages of committed entries applied by this input (apply / unlag)
 	heldNew     bool   // persist lag: this input ended with a fresh Ready held as a whole
 	released    int    // persist lag: whole Readys released (persisted, sent, applied, advanced) by this input
+	unsynced    string // a vote or an append acknowledgement left the node while the state it promises had not been written with MustSync
 	mutated     string // persist lag: first difference between the released Ready and its copy taken at the hand-out
 	panicVal    string
 	panicStack  string
@@ -332,6 +333,14 @@ type live struct {
 	plag      bool
 	heldWhole bool
 	handed    *readyImage
+
+	// what a power loss would leave: term / vote and last log index as of the last Ready written
+	// with MustSync (or of the storage the node was started from). Not used for restarts (a crash
+	// here is a process crash, the storage survives whole) - only for AcknowledgedBeforeDurable.
+	durInit bool
+	durTerm uint64
+	durVote uint64
+	durLast uint64
 }
 
 // readyImage is a deep copy of the parts of a Ready that the application owns until Advance:
@@ -591,9 +600,35 @@ func (n *live) pump(eff *effects) {
 // persistAndSend is the first half of the handling of a Ready: HardState, snapshot and entries
 // go to the storage, the messages are handed to the network.
 func (n *live) persistAndSend(rd *raft.Ready, eff *effects) {
+	if !n.durInit {
+		hs, _, _ := n.st.InitialState()
+		li, _ := n.st.LastIndex()
+		n.durInit, n.durTerm, n.durVote, n.durLast = true, hs.Term, hs.Vote, li
+	}
 	if !raft.IsEmptyHardState(rd.HardState) {
 		n.st.SetHardState(rd.HardState)
 	}
+	defer func() {
+		// the application syncs a snapshot it installs (raftexample: saveSnap) and whatever comes
+		// with MustSync; everything else may still sit in a write buffer when the messages leave
+		if li, _ := n.st.LastIndex(); rd.MustSync {
+			hs, _, _ := n.st.InitialState()
+			n.durTerm, n.durVote, n.durLast = hs.Term, hs.Vote, li
+		} else if !raft.IsEmptySnap(rd.Snapshot) && rd.Snapshot.Metadata.Index > n.durLast {
+			n.durLast = rd.Snapshot.Metadata.Index
+		}
+		for _, m := range rd.Messages {
+			if eff.unsynced != "" {
+				break
+			}
+			switch {
+			case m.Type == pb.MsgVoteResp && !m.Reject && (n.durTerm != m.Term || n.durVote != m.To):
+				eff.unsynced = fmt.Sprintf("grants its vote to %d in term %d (MsgVoteResp) while the last state written with MustSync is term %d vote %d (this Ready: MustSync=%v, HardState %+v)", m.To, m.Term, n.durTerm, n.durVote, rd.MustSync, rd.HardState)
+			case m.Type == pb.MsgAppResp && !m.Reject && m.Index > n.durLast:
+				eff.unsynced = fmt.Sprintf("acknowledges index %d to %d (MsgAppResp, term %d) while the log written with MustSync ends at %d (this Ready: MustSync=%v, %d entries)", m.Index, m.To, m.Term, n.durLast, rd.MustSync, len(rd.Entries))
+			}
+		}
+	}()
 	if !raft.IsEmptySnap(rd.Snapshot) {
 		// Receiver side of MsgSnap: the library decided to restore, the application
 		// persists the snapshot (ApplySnapshot replaces the storage's log by the
